@@ -9,6 +9,9 @@ META = {
     "C01": {"ref": "DESIGN.md §8 C01",
             "text": "Totality is decided per path by the solver: no panic escapes the entry point (runtime panics are implicit assertions: index, nil, type assertion, slice bounds, division, negative make), and every path stays inside an instruction / call-depth budget (unwinding assertion). Inputs: symbolic byte strings into the real tokenizer; symbolic token sequences (finite-domain selectors over a lexeme table, including rows no tokenizer can produce, EOF presence symbolic, strict x dialect symbolic) into the real low-level parser, with accepted trees serialised.",
             "note": "Bounded by input length / token count (evidence.coverage.bounds). A budget overrun is replayed natively under a timeout and only then reported (hang or fatal stack overflow)."},
+    "C02": {"ref": "DESIGN.md §8 C02",
+            "text": "Four solver-decided obligations: (A) recursion accounting as an inductive argument — an engine-side monitor asserts, for every *Parser method re-entered while an activation of it is live, that p.depth strictly increased (start depth and token continuation symbolic), so every cycle reachable within the bound pays into the depth counter; (B) the depth limit is exact for every current depth 0..200 (symbolic); (C) the byte limit is exact for every input length 0..32 MiB (symbolic length, content never read; boundary 10 MiB decided by the solver); (D) the token limit is exact on the source instantiated at MaxTokens=2.",
+            "note": "A is bounded by continuation length and the listed contexts; its violations are engine-side (no native observable for 're-entered without accounting'), all other counterexamples are replayed natively (10 MiB+1 inputs, instantiated source). D relies on the stated data-independence of the constant."},
     "C13": {"ref": "DESIGN.md §8 C13",
             "text": "On every error-returning path of the C01 runs the solver discharges: errors.As reaches *errors.Error (the real Unwrap chains are executed), the code belongs to the right family (E1xxx from Tokenize, E2xxx from the parser), the message is non-empty and a set location lies within the input.",
             "note": "Same bounds as C01; message wording and hints are executed but not asserted on."},
